@@ -64,7 +64,25 @@ class P:
         deriv = {"name": "derivations-rendered", "harness": "tokens", "driver": "dtok", "cases": cases, "compare": lambda c, i, m: True,
                  "nontrivial": lambda c: len(c.split("\t")[1].split("@")) >= 2,
                  "distribution": {"systematic_context_x_command_x_layout": len(D.CONTEXTS) * len(D.COMMANDS) * 3, "random_derivations": n}}
-        return [deriv] + token_parts(rnd, tier, 3000 if tier == "quick" else 40000)
+        # '#' inside a word is an ordinary character (a comment begins only where a word could begin)
+        hw, hexp = [], {}
+        for w in ("a#b", "a#", "x=a#b", "$x#b", "\"a\"#b", "'a'#", "${x}#b", "$(a)#b", "a\\#b#c", "1#2"):
+            for ctx in ("echo %s\n", "echo %s c\n", "%s\n", "echo a; echo %s; echo d\n", "if a; then echo %s; fi\n"):
+                hw.append(G.pcase(ctx % w))
+                hexp[hw[-1]] = 0
+        for ctl, n in (("echo a #b\n", 1), ("echo a;#b\n", 1), ("echo a\\#b\n", 0), ("echo 'a#b'\n", 0), ("echo \"a #b\"\n", 0), ("#b\n", 1), ("echo a&#b\n", 1), ("(a)#b\n", 1)):
+            hw.append(G.pcase(ctl))
+            hexp[hw[-1]] = n
+
+        def hash_ok(c, o):
+            if not o.startswith("ok "):
+                return False
+            f = dict(x.split("=", 1) for x in o.split(" ")[1:])
+            ncomments = len([x for x in f.get("M", "").split(",") if x])
+            return f.get("E") == "nil" and ncomments == hexp[c]
+        hpart = {"name": "hash-inside-word", "harness": "parse", "driver": None, "cases": hw, "impl_ok": hash_ok,
+                 "nontrivial": lambda c: True, "distribution": {"cases": len(hw)}}
+        return [deriv, hpart] + token_parts(rnd, tier, 3000 if tier == "quick" else 40000)
 
     def describe(self, part, case):
         if len(case.split("\t")) == 3 and "#" in case.split("\t")[1]:
@@ -72,6 +90,14 @@ class P:
         return G.describe(case)
 
     def classify(self, part, case, impl, model, judge, findings):
+        # F60: a '#' in the middle of a word starts a comment (pinned by the repository's own test "go version# comment")
+        pname = part["name"] if isinstance(part, dict) else part
+        if pname == "hash-inside-word" and impl.startswith("ok "):
+            f = dict(x.split("=", 1) for x in impl.split(" ")[1:])
+            if len([x for x in f.get("M", "").split(",") if x]) >= 1:
+                for fd in findings:
+                    if fd.get("id") == "F60" and fd.get("status") == "open":
+                        return "F60"
         return None
 
     def replay(self, payload, C):
